@@ -487,6 +487,23 @@ fn run_b(c: &CaseB, lines: &mut Vec<String>, flags: &mut CaseFlags) {
         }};
     }
 
+    // `timed` families: build() is first run on a helper thread under a generous wall-clock budget
+    // (the clean code needs milliseconds); an exponential path search would otherwise block the run.
+    if c.family.starts_with("timed") {
+        let ops = c.ops.clone();
+        let (tx, rx) = std::sync::mpsc::channel();
+        std::thread::spawn(move || {
+            let b = build_ops(&ops);
+            let _ = tx.send(matches!(b.outcome, Outcome::Ok { .. }));
+        });
+        match rx.recv_timeout(std::time::Duration::from_secs(4)) {
+            Ok(_) => obs!("BT", "ok".to_string()),
+            Err(_) => {
+                obs!("BT", "timeout build() did not finish within 4 s".to_string());
+                return;
+            }
+        }
+    }
     let built = build_ops(&c.ops);
     flags.has_cyc = built.r.iter().any(|t| t == "cyc");
     obs!(
